@@ -245,6 +245,8 @@ _LOOP_CODES = {
     "SpecFail8": "RunOnLoop/SetTimeout/SetInterval result does not match the terminated state (accepted while terminated, or refused while not)",
     "SpecFail9": "jobCount is not zero after the final Terminate",
     "SpecFail10": "loop.jobs is not empty after the final Terminate",
+    "SpecFail12": "the loop left through the canRun test although no Stop/StopNoWait was requested since it was (re)started",
+    "SpecFail11": "a timeout/interval requested before Terminate() returned, whose callback had not started by then, ran afterwards",
     "Implstuck": "no thread can make progress (a call that must return does not)",
     "Implcallbacks-overlap": "callback started while another was executing (harness counter)",
     "Impltimer-early": "a timer callback ran before its delay had elapsed",
@@ -304,12 +306,12 @@ PROPS["C07"] = _loop("stop",
     "C07_stop_request_not_lost (token still in the channel or the run thread is on the exit path), C07_exit_path_progress (every run-thread step on "
     "that path decreases a lexicographic measure), C07_stop_noop_when_not_running, C07_lifecycle_keeps_work, C07_pending_timeout_kept, "
     "C07_queue_kept, C07_timeout_once",
-    _LOOP_RULE % (", StopNoWait", ", StopNoWait"), ["SpecFail3", "SpecFail4", "Implstuck", "Implapi-call-panicked"],
+    _LOOP_RULE % (", StopNoWait", ", StopNoWait"), ["SpecFail3", "SpecFail4", "SpecFail12", "Implstuck", "Implapi-call-panicked"],
     ["termination of Stop() under an unfair select (job arm chosen for ever while intervals tick) is probabilistic in Go; proved: the request is "
      "never lost and the exit path is finite"])
 PROPS["C08"] = _loop("terminate",
     "C08_terminate_leaves_nothing (registry empty, every job's runtime timer/goroutine gone, every timeout/interval cancelled, queue drained), "
     "C08_cancelled_never_runs_again, C08_helpers_registered, C08_terminated_until_restart, C08_refuses_while_terminated, C08_restart_accepts",
-    _LOOP_RULE % ("", ""), ["SpecFail5", "SpecFail8", "SpecFail10", "Implgoroutine-left-after-terminate", "Impljobs-left-after-terminate",
+    _LOOP_RULE % ("", ""), ["SpecFail5", "SpecFail8", "SpecFail10", "SpecFail11", "Implgoroutine-left-after-terminate", "Impljobs-left-after-terminate",
                            "Impljobs-index-broken", "Implstuck"],
     ["Terminate is not called concurrently with Stop*/Start/Run (documented contract)"])
